@@ -105,6 +105,7 @@ type c12Env struct {
 	n    int // denom counter
 	te   *c12TEnv
 	w    *CaseWriter
+	opsRun map[string]bool // endpoints of the table exercised by the access matrix
 }
 
 func (e *c12Env) handle(ctx sdk.Context, msg sdk.Msg) error {
@@ -302,7 +303,46 @@ func c12Masks(r *rand.Rand, restricted bool) []int {
 }
 
 var c12Ops = []string{"OMint", "OBurn", "OWithdraw", "OFinalize", "OActivate", "OCancel", "ODelete", "OAddAccess", "ODeleteAccess",
-	"OSetMetadata", "OSetAccountData", "OUpdateDenyList", "OUpdateReqAttrs", "OGrantAllowance", "OAddNav"}
+	"OSetMetadata", "OSetAccountData", "OUpdateDenyList", "OUpdateReqAttrs", "OGrantAllowance", "OAddNav",
+	// governance-only endpoints
+	"OUpdateForcedTransfer", "OSupplyIncrease", "OSupplyDecrease", "OSetAdministrator", "ORemoveAdministrator",
+	"OChangeStatus", "OWithdrawEscrow", "OSetMetadataProposal"}
+
+var c12GovOnly = map[string]bool{"OUpdateForcedTransfer": true, "OSupplyIncrease": true, "OSupplyDecrease": true, "OSetAdministrator": true,
+	"ORemoveAdministrator": true, "OChangeStatus": true, "OWithdrawEscrow": true, "OSetMetadataProposal": true}
+
+func c12Metadata(denom string) banktypes.Metadata {
+	return banktypes.Metadata{
+		Description: "c12", Base: denom, Display: denom, Name: "C12 " + denom, Symbol: strings.ToUpper(denom),
+		DenomUnits: []*banktypes.DenomUnit{{Denom: denom, Exponent: 0}, {Denom: "k" + denom, Exponent: 3}}}
+}
+
+// govOpMsg builds the governance-only requests; they read the marker (current status, current
+// forced-transfer flag) so that the request is valid apart from who sends it.
+func (e *c12Env) govOpMsg(ctx sdk.Context, op, denom string, caller sdk.AccAddress) sdk.Msg {
+	m, err := e.app.MarkerKeeper.GetMarkerByDenom(ctx, denom)
+	e.must(err, "get "+denom)
+	switch op {
+	case "OUpdateForcedTransfer":
+		return markertypes.NewMsgUpdateForcedTransferRequest(denom, !m.AllowsForcedTransfer(), caller)
+	case "OSupplyIncrease":
+		return markertypes.NewMsgSupplyIncreaseProposalRequest(sdk.NewInt64Coin(denom, 5), "", caller.String())
+	case "OSupplyDecrease":
+		return markertypes.NewMsgSupplyDecreaseProposalRequest(sdk.NewInt64Coin(denom, 5), caller.String())
+	case "OSetAdministrator":
+		return markertypes.NewMsgSetAdministratorProposalRequest(denom, []markertypes.AccessGrant{{Address: addrN(c12Third).String(), Permissions: []markertypes.Access{markertypes.Access_Deposit}}}, caller.String())
+	case "ORemoveAdministrator":
+		return markertypes.NewMsgRemoveAdministratorProposalRequest(denom, []string{addrN(c12Third).String()}, caller.String())
+	case "OChangeStatus":
+		return markertypes.NewMsgChangeStatusProposalRequest(denom, m.GetStatus(), caller.String())
+	case "OWithdrawEscrow":
+		return markertypes.NewMsgWithdrawEscrowProposalRequest(denom, sdk.NewCoins(sdk.NewInt64Coin("xothercoin", 5)), addrN(c12Recv).String(), caller.String())
+	case "OSetMetadataProposal":
+		return markertypes.NewMsgSetDenomMetadataProposalRequest(c12Metadata(denom), caller.String())
+	}
+	e.t.Fatalf("unknown governance op %s", op)
+	return nil
+}
 
 func (e *c12Env) opMsg(op, denom string, caller sdk.AccAddress) sdk.Msg {
 	switch op {
@@ -325,9 +365,7 @@ func (e *c12Env) opMsg(op, denom string, caller sdk.AccAddress) sdk.Msg {
 	case "ODeleteAccess":
 		return markertypes.NewDeleteAccessRequest(denom, caller, addrN(c12Third))
 	case "OSetMetadata":
-		return &markertypes.MsgSetDenomMetadataRequest{Administrator: caller.String(), Metadata: banktypes.Metadata{
-			Description: "c12", Base: denom, Display: denom, Name: "C12 " + denom, Symbol: strings.ToUpper(denom),
-			DenomUnits: []*banktypes.DenomUnit{{Denom: denom, Exponent: 0}, {Denom: "k" + denom, Exponent: 3}}}}
+		return &markertypes.MsgSetDenomMetadataRequest{Administrator: caller.String(), Metadata: c12Metadata(denom)}
 	case "OSetAccountData":
 		return markertypes.NewMsgSetAccountDataRequest(denom, "c12 account data", caller)
 	case "OUpdateDenyList":
@@ -355,7 +393,7 @@ func TestC12(t *testing.T) {
 	r := newRand("C12")
 	w := NewCaseWriter("C12", "PV.Corr.C12", "check_all", 1000)
 	app, base := newApp(t)
-	e := &c12Env{t: t, app: app, base: base, w: w}
+	e := &c12Env{t: t, app: app, base: base, w: w, opsRun: map[string]bool{}}
 	e.gov = sdk.MustAccAddressFromBech32(app.MarkerKeeper.GetAuthority())
 	for _, n := range []int{c12Caller, c12Manager, c12Third, c12Minter, c12Deleter, c12Recv, c12Denied, c12Grantee} {
 		ensureAccount(app, base, addrN(n))
@@ -365,6 +403,10 @@ func TestC12(t *testing.T) {
 	c12Lifecycles(e, r, w)
 	c12Transfers(e, r, w)
 	c12Sequences(e, r, w)
+	c12Withdraws(e, r, w)
+	c12TimedSequences(e, r, w)
+	c12Histories(e, r, w)
+	c12Misc(e, r, w)
 	w.Flush(t)
 }
 
@@ -399,6 +441,9 @@ func c12Access(e *c12Env, r *rand.Rand, w *CaseWriter) {
 		}
 	}
 	govAware := map[string]bool{"OSetAccountData": true, "OUpdateDenyList": true, "OUpdateReqAttrs": true, "OAddNav": true}
+	for k := range c12GovOnly {
+		govAware[k] = true
+	}
 	accessOps := map[string]bool{"OAddAccess": true, "ODeleteAccess": true}
 	thorough := tier() == "thorough"
 
@@ -436,6 +481,9 @@ func c12Access(e *c12Env, r *rand.Rand, w *CaseWriter) {
 								if (mode != "normal" || ck == "gov") && !thorough && mask != 0 && mask&(mask-1) != 0 && r.Intn(3) != 0 {
 									continue // quick tier: thin out the multi-right masks of the side dimensions
 								}
+								if c12GovOnly[op] && !thorough && mask != 0 && mask != masks[len(masks)-1] && r.Intn(8) != 0 {
+									continue // governance-only endpoints read no right: empty, full and a few other masks
+								}
 								denom := markers[c12Key{vi, restricted, govctl, mode == "zero-supply"}]
 								ctx, _ := base.CacheContext()
 								var caller sdk.AccAddress
@@ -449,9 +497,16 @@ func c12Access(e *c12Env, r *rand.Rand, w *CaseWriter) {
 								}
 								e.setRights(ctx, denom, caller, mask)
 								m, _ := app.MarkerKeeper.GetMarkerByDenom(ctx, denom)
-								if op == "OWithdraw" {
+								if op == "OWithdraw" || op == "OWithdrawEscrow" {
 									// something other than the marker's own coin sits in the marker account
 									e.fundBypass(ctx, m.GetAddress(), sdk.NewCoins(sdk.NewInt64Coin("xothercoin", 50)))
+								}
+								if op == "OSupplyDecrease" {
+									// only where there is something to burn (otherwise the request fails for everybody)
+									if app.BankKeeper.GetBalance(ctx, m.GetAddress(), denom).Amount.LT(sdkmath.NewInt(5)) || m.GetSupply().Amount.LT(sdkmath.NewInt(5)) {
+										w.Count("access_skipped_nothing_to_burn")
+										continue
+									}
 								}
 								if mode == "holds-all" {
 									e.must(app.BankKeeper.SendCoins(markertypes.WithBypass(ctx), m.GetAddress(), caller, sdk.NewCoins(m.GetSupply())), "hold all")
@@ -463,7 +518,12 @@ func c12Access(e *c12Env, r *rand.Rand, w *CaseWriter) {
 								supplyZero := m.GetSupply().Amount.IsZero()
 								before := m.GetStatus()
 
-								msg := e.opMsg(op, denom, caller)
+								var msg sdk.Msg
+								if c12GovOnly[op] {
+									msg = e.govOpMsg(ctx, op, denom, caller)
+								} else {
+									msg = e.opMsg(op, denom, caller)
+								}
 								cc, write := ctx.CacheContext()
 								err := e.handle(cc, msg)
 								if err == nil {
@@ -487,6 +547,15 @@ func c12Access(e *c12Env, r *rand.Rand, w *CaseWriter) {
 										"ok": err == nil, "status_after": after.String()})
 								w.Count("access_cases")
 								w.Count("access_" + op)
+								e.opsRun[op] = true
+								if op == "OGrantAllowance" && err == nil {
+									// the allowance is the MARKER's: granter = marker account, not the administrator
+									fromMarker, _ := app.FeeGrantKeeper.GetAllowance(ctx, m.GetAddress(), addrN(c12Grantee))
+									fromCaller, _ := app.FeeGrantKeeper.GetAllowance(ctx, caller, addrN(c12Grantee))
+									w.Add(fmt.Sprintf("CAllowance %s %s", coqBool(fromMarker != nil), coqBool(fromCaller != nil)),
+										desc{"part": "allowance", "marker": v.name, "allowance_of_marker_account": fromMarker != nil, "allowance_of_administrator": fromCaller != nil})
+									w.Count("allowance_cases")
+								}
 								if err == nil {
 									w.Count("access_accepted")
 									w.Nontrivial(fmt.Sprintf("a/%s/%d/%v/%d/%s/%s/%v", op, vi, restricted, mask, ck, mode, govctl))
@@ -529,6 +598,9 @@ func c12Lifecycles(e *c12Env, r *rand.Rand, w *CaseWriter) {
 		activated := e.driveLife(ctx, denom, restricted, initial, 1000, route)
 		caller := addrN(c12Manager)
 		for _, op := range c12Ops {
+			if c12GovOnly[op] {
+				continue // probed as the (former) manager: the governance-only endpoints are in the matrix above
+			}
 			if r.Intn(2) == 0 && op != "OSetMetadata" && op != "ODelete" {
 				continue
 			}
@@ -706,9 +778,15 @@ func c12SetupTransfers(e *c12Env) *c12TEnv {
 		te.denoms = append(te.denoms, d.denom)
 		te.forced[d.denom] = d.forced
 	}
-	// other markers: destinations and a holder
+	// other markers: destinations (a second restricted marker in EVERY status, coin markers) and a holder
 	e.makeMarker(base, "xdestr", active, true, false, true, 1000)
 	e.makeMarker(base, "xdestc", active, false, false, true, 1000)
+	e.makeMarker(base, "xdrp", c12Variants[0], true, false, true, 1000) // proposed
+	e.makeMarker(base, "xdrf", c12Variants[1], true, false, true, 1000) // finalized
+	e.makeMarker(base, "xdrc", c12Variants[4], true, false, true, 1000) // cancelled after activation
+	e.makeMarker(base, "xdrx", c12Variants[3], true, false, true, 1000) // cancelled before activation
+	e.makeMarker(base, "xdrd", c12Variants[6], true, false, true, 1000) // destroyed (account not yet removed)
+	e.makeMarker(base, "xdcp", c12Variants[0], false, false, true, 1000) // proposed coin marker
 	e.makeMarker(base, "xholder", active, false, false, true, 1000)
 	e.makeMarker(base, "xrcp", c12Variants[0], true, true, true, 1000)  // proposed restricted
 	e.makeMarker(base, "xrcf", c12Variants[1], true, true, true, 1000)  // finalized restricted
@@ -733,6 +811,7 @@ func c12SetupTransfers(e *c12Env) *c12TEnv {
 		{"contract-account", addrN(c12Contract), true},
 		{"module-account", modAcc.GetAddress(), true},
 		{"marker-account", markertypes.MustGetMarkerAddress("xholder"), false},
+		{"own-marker-account", nil, false}, // the account of the marker of the coin itself (resolved per case)
 		{"market-account", exchange.GetMarketAddress(marketID), false},
 		{"no-account", addrN(c12Nobody), false},
 	}
@@ -746,7 +825,7 @@ func c12SetupTransfers(e *c12Env) *c12TEnv {
 		}
 	}
 	for _, s := range te.srcs {
-		if s.name == "no-account" {
+		if s.name == "no-account" || s.addr == nil {
 			continue
 		}
 		for _, d := range append(append([]string{}, te.denoms...), "xrcp", "xrcf", "xcoin") {
@@ -767,10 +846,24 @@ func c12SetupTransfers(e *c12Env) *c12TEnv {
 	}
 	plain := addrN(300)
 	ensureAccount(app, base, plain)
-	te.dsts = []c12Dst{
-		{"plain", plain, func(int) string { return "DPlain" }, ""},
-		{"restricted-marker", markertypes.MustGetMarkerAddress("xdestr"), func(r int) string { return fmt.Sprintf("(DMarker true %d%%N)", r) }, "xdestr"},
-		{"coin-marker", markertypes.MustGetMarkerAddress("xdestc"), func(r int) string { return fmt.Sprintf("(DMarker false %d%%N)", r) }, "xdestc"},
+	te.dsts = []c12Dst{{"plain", plain, func(int) string { return "DPlain" }, ""}}
+	for _, d := range []struct {
+		name, denom, status string
+		restricted         bool
+	}{
+		{"restricted-marker-active", "xdestr", "SActive", true}, {"coin-marker-active", "xdestc", "SActive", false},
+		{"restricted-marker-proposed", "xdrp", "SProposed", true}, {"restricted-marker-finalized", "xdrf", "SFinalized", true},
+		{"restricted-marker-cancelled", "xdrc", "SCancelled", true}, {"restricted-marker-cancelled-never-active", "xdrx", "SCancelled", true},
+		{"restricted-marker-destroyed", "xdrd", "SDestroyed", true}, {"coin-marker-proposed", "xdcp", "SProposed", false},
+	} {
+		d := d
+		dm, derr := app.MarkerKeeper.GetMarkerByDenom(base, d.denom)
+		e.must(derr, "get "+d.denom)
+		if c12StatusCoq[dm.GetStatus()] != d.status {
+			e.t.Fatalf("destination marker %s: status %s", d.denom, dm.GetStatus())
+		}
+		te.dsts = append(te.dsts, c12Dst{d.name, markertypes.MustGetMarkerAddress(d.denom),
+			func(r int) string { return fmt.Sprintf("(DMarker %s %s %d%%N)", coqBool(d.restricted), d.status, r) }, d.denom})
 	}
 	if blocked != nil {
 		te.dsts = append(te.dsts, c12Dst{"blocked-module-account", blocked, func(int) string { return "DBlocked" }, ""})
@@ -824,8 +917,11 @@ func c12Transfers(e *c12Env, r *rand.Rand, w *CaseWriter) {
 		if r.Intn(6) == 0 {
 			src = te.srcs[0]
 		}
+		if src.addr == nil {
+			src.addr = m.GetAddress() // the marker's own account holds (part of) its supply
+		}
 		dst := te.dsts[0]
-		if r.Intn(3) == 0 {
+		if r.Intn(2) == 0 {
 			dst = te.dsts[r.Intn(len(te.dsts))]
 		}
 		dstRights := 0
@@ -834,7 +930,7 @@ func c12Transfers(e *c12Env, r *rand.Rand, w *CaseWriter) {
 			if r.Intn(2) == 0 {
 				dstRights |= 4 // Deposit
 			}
-			if dst.mark == "xdestc" {
+			if dst.mark == "xdestc" || dst.mark == "xdcp" {
 				dstRights &= 63
 			}
 			e.setRights(ctx, dst.mark, admin, dstRights)
